@@ -25,5 +25,6 @@ def run(chk):
     from . import twins
     twins.rule_common_flag(chk, P, 'Z1', floor=6)
     twins.rule_wrapper_constants(chk, P, 'X3', floor=150)
+    twins.rule_token_agreement(chk, P, 'K1', floor=150)
     from . import padding
     padding.rule_sha_padding(chk, P)
